@@ -568,7 +568,18 @@ func scriptProg(s *exec.State, v abs.V, ops []any) {
 	s.Reset()
 	s.Build(1, v)
 	for _, o := range ops {
-		switch o.(string) {
+		name, _ := o.(string)
+		var arg any
+		if m, ok := o.(abs.V); ok {
+			name, _ = m["op"].(string)
+			arg = m["v"]
+		}
+		switch name {
+		case "rebuild1":
+			if arg == nil {
+				arg = altValue(v)
+			}
+			s.Rebuild(1, arg)
 		case "marshal1":
 			s.Marshal(1)
 		case "size1":
@@ -601,14 +612,26 @@ func init() {
 	extraScripts["prog"] = func(s *exec.State, rec abs.V) { scriptProg(s, rec["v"].(abs.V), abs.List(rec["ops"])) }
 	// random longer histories with repeated calls (C18)
 	drivers["histrand"] = func(s *exec.State, g *gen.G, n int) {
-		names := []string{"marshal1", "size1", "dest1", "string1", "unmarshal12", "datagram13", "marshal2", "dest2", "marshal3"}
+		names := []string{"marshal1", "size1", "dest1", "string1", "unmarshal12", "datagram13", "marshal2", "dest2", "marshal3", "rebuild1"}
 		for i := 0; i < n; i++ {
 			k := g.Int(4, 12)
 			ops := make([]any, k)
 			for j := range ops {
 				ops[j] = names[g.R.Intn(len(names))]
 			}
-			scriptProg(s, g.Any(), ops)
+			v := g.Any()
+			altGen = func() abs.V { return g.Of(v["k"].(string)) }
+			scriptProg(s, v, ops)
 		}
 	}
+}
+
+// altValue: another value of the same kind for an in-place rebuild in random histories.
+var altGen func() abs.V
+
+func altValue(v abs.V) abs.V {
+	if altGen != nil {
+		return altGen()
+	}
+	return v
 }
